@@ -208,11 +208,27 @@ MODELS = {
     "C04": [("LdpcIt_MC", "LdpcIt_quick", "LdpcIt_thorough")],
 }
 
+# x = (chunk, exec, dec, finok, finfail, cbn, calls, gettab, build, skipped)
+NONTRIVIAL = {
+    "C01": lambda x: x[2] > 0,
+    "C02": lambda x: x[6] > 4,
+    "C03": lambda x: x[3] + x[4] > 0 and (x[2] > 0 or x[4] > 0),
+    "C04": lambda x: x[2] > 0,
+    "C10": lambda x: x[3] + x[4] > 0,
+    "C11": lambda x: x[5] > 0,
+    "C08": lambda x: x[6] > 2,
+    "C07": lambda x: x[6] > 3,
+}
+
 RULES = {
-    "C01": "executions distinct as (parameter point, received sequence, API path, callback mode); non-trivial = at least one source symbol is decoded rather than received",
-    "C02": "executions distinct as (codec, m, k, n, received sequence, API); non-trivial = neither empty nor all-sources-received",
-    "C03": "executions distinct as (parameter point, received set, order, API); non-trivial = finish reached with at least one source symbol missing",
-    "C04": "executions distinct as (parameter point, arrival sequence); non-trivial = at least one prefix whose closure is strictly larger than the received set",
+    "C01": "executions distinct as behaviour texts (parameter point, received sequence, API path, callback mode); non-trivial = the trace spec counted at least one source symbol that became available without having been submitted",
+    "C02": "executions distinct as behaviour texts (codec, m, k, n, received sequence, API); non-trivial = more than four validated API calls",
+    "C03": "executions distinct as behaviour texts; non-trivial = of_finish_decoding was validated and either decoded something or reported failure",
+    "C04": "executions distinct as behaviour texts (parameter point, arrival sequence); non-trivial = at least one source symbol released by peeling (counted by the trace spec)",
+    "C10": "executions distinct as behaviour texts; non-trivial = an of_finish_decoding status was validated",
+    "C11": "executions distinct as behaviour texts; non-trivial = at least one callback invocation was validated",
+    "C08": "executions distinct as behaviour texts; non-trivial = released after at least one call beyond create/params",
+    "C07": "executions distinct as behaviour texts; non-trivial = more than three validated API calls under ASan",
 }
 
 
@@ -241,7 +257,7 @@ def run(pid, tier):
         apicheck.judge(pid, api, verdict)
         rc = verdict.finish()
         distinct = len({tuple(e) for e in execs})
-        nontrivial = len({tuple(e) for e in execs if len(e) > 5})
+        nontrivial = apicheck.nontrivial_distinct(api, NONTRIVIAL.get(pid, lambda x: x[6] > 3))
         cov = {
             "states": mc_states + api["distinct"],
             "transitions": mc_trans + api["states"],
@@ -251,6 +267,7 @@ def run(pid, tier):
             "distinct_nontrivial": nontrivial,
             "rule": RULES.get(pid, "executions distinct as behaviour texts; non-trivial = more than create/params/release"),
             "model_runs": mc_runs,
+            "spec_counters": apicheck.stats_summary(api),
             "trace_lines": api["lines"],
             "distinct_executions": distinct,
             "exhaustive": False,
